@@ -54,7 +54,11 @@ def h_amplitudes(ctx, n_full, heralds, n_loss, kmax, explicit):
     hp = sum(h_in.values())
     k = ctx.choice("photons", [k for k in range(0, kmax - hp + 1) if n_in > 0 or k == 0])
     ins = ref.fock_states(n_in, k)
-    if explicit == "two-inputs" and len(ins) >= 2:
+    if explicit == "duplicates":
+        # the same state listed twice among the inputs and among the outputs
+        i1 = ctx.choice("in1", list(range(len(ins))))
+        inputs = [lw.State(ins[i1]), lw.State(ins[(i1 + 1) % len(ins)]), lw.State(ins[i1])]
+    elif explicit == "two-inputs" and len(ins) >= 2:
         i1 = ctx.choice("in1", list(range(len(ins))))
         i2 = ctx.choice("in2", [j for j in range(len(ins)) if j != i1])
         inputs = [lw.State(ins[i1]), lw.State(ins[i2])]
@@ -62,9 +66,14 @@ def h_amplitudes(ctx, n_full, heralds, n_loss, kmax, explicit):
         inp = ctx.choice("input", ins)
         inputs = lw.State(inp) if explicit != "list1" else [lw.State(inp)]
     outs_all = ref.fock_states(n_in, k)
-    if explicit == "explicit":
-        # an explicit output list in a different order, with one state repeated check avoided
-        outputs = [lw.State(o) for o in reversed(outs_all)]
+    exp_outs = None
+    if explicit == "duplicates":
+        exp_outs = [outs_all[0], outs_all[-1], outs_all[0]] + outs_all[1:]
+        outputs = [lw.State(o) for o in exp_outs]
+    elif explicit == "explicit":
+        # an explicit output list in a different order
+        exp_outs = list(reversed(outs_all))
+        outputs = [lw.State(o) for o in exp_outs]
     elif explicit == "single-output":
         outputs = lw.State(ctx.choice("output", outs_all))
     else:
@@ -80,7 +89,11 @@ def h_amplitudes(ctx, n_full, heralds, n_loss, kmax, explicit):
     in_list = inputs if isinstance(inputs, list) else [inputs]
     ctx.check(len(res.inputs) == len(in_list), "result-inputs-length")
     got_outs = [o.s for o in res.outputs]
-    ctx.check(sorted(got_outs) == sorted(outs_all) if explicit not in ("single-output",) else len(got_outs) == 1, "outputs-are-the-full-fock-basis")
+    if exp_outs is not None:
+        ctx.check(got_outs == exp_outs, "outputs-are-the-given-list-in-its-order")
+        ctx.check(res.array.shape == (len(in_list), len(exp_outs)), "array-has-one-row-per-input-and-one-column-per-output")
+    else:
+        ctx.check(sorted(got_outs) == sorted(outs_all) if explicit not in ("single-output",) else len(got_outs) == 1, "outputs-are-the-full-fock-basis")
     for i, st in enumerate(in_list):
         fin = ref.insert_heralds(st.s, h_in) + [0] * n_loss
         for j, o in enumerate(res.outputs):
@@ -111,7 +124,7 @@ def amp_cases(tier):
                     continue
                 modes = ["all-outputs"]
                 if n_loss == 0:
-                    modes += ["explicit", "list1", "two-inputs", "single-output"]
+                    modes += ["explicit", "list1", "two-inputs", "single-output", "duplicates"]
                 for explicit in modes:
                     km = kmax if n_full <= 3 else min(kmax, 3)
                     if n_full == 2 and not hs and n_loss == 0:
